@@ -511,3 +511,93 @@ Definition request_view_accepts (props required ro : list str) (closed : bool) (
   && sends_no_readonly ro keys
   && (negb closed || subset_keys keys (remove_names ro props)).
 Definition readonly_le1' (ro : list str) : bool := match ro with [] | [_] => true | _ => false end.
+
+(* ------------------------------------------------------------------------------------ *)
+(* 7. converter.py:26-28 nullable, applied to every nested schema by to_json_schema_recursive *)
+(*    (core/transforms.transform).  The keyword is tri-state and has two spellings:        *)
+(*    nullable (3.x) and x-nullable (2.0); the converter only looks at the one it is told. *)
+(*    Fragment: string / integer / boolean, arrays, objects (properties + required; no     *)
+(*    property is named like a schema keyword).                                            *)
+(* ------------------------------------------------------------------------------------ *)
+Inductive nstate := NAbsent | NTrue | NFalse.
+Inductive prim := PString | PInteger | PBoolean.
+Inductive oas :=
+| OPrim (n xn : nstate) (t : prim)
+| OArr (n xn : nstate) (items : oas)
+| OObj (n xn : nstate) (props : list (str * oas)) (required : list str).
+(* the JSON Schema side *)
+Inductive js :=
+| JsPrim (t : prim)
+| JsNull
+| JsArr (items : js)
+| JsObj (props : list (str * js)) (required : list str)
+| JsAnyOf (alts : list js).
+Inductive val := VNull | VStr | VInt | VBool | VArr (l : list val) | VObj (l : list (str * val)).
+
+(* use_x = the converter was called with nullable_name = x-nullable (Open API 2.0) *)
+Definition eff (use_x : bool) (s : oas) : nstate :=
+  match s with
+  | OPrim n xn _ | OArr n xn _ | OObj n xn _ _ => if use_x then xn else n
+  end.
+
+(* schema.get(nullable_name) is True *)
+Definition wraps (st : nstate) : bool := match st with NTrue => true | _ => false end.
+Definition wrap (st : nstate) (j : js) : js := if wraps st then JsAnyOf [j; JsNull] else j.
+
+Fixpoint conv (use_x : bool) (s : oas) : js :=
+  wrap (eff use_x s)
+    match s with
+    | OPrim _ _ t => JsPrim t
+    | OArr _ _ it => JsArr (conv use_x it)
+    | OObj _ _ props req =>
+        JsObj ((fix go (l : list (str * oas)) : list (str * js) :=
+                  match l with [] => [] | (k, p) :: l' => (k, conv use_x p) :: go l' end) props) req
+    end.
+
+Fixpoint vget (k : str) (l : list (str * val)) : option val :=
+  match l with [] => None | (k', v) :: l' => if str_eqb k k' then Some v else vget k l' end.
+Definition vhas (l : list (str * val)) (k : str) : bool := match vget k l with Some _ => true | None => false end.
+Definition prim_ok (t : prim) (v : val) : bool :=
+  match t, v with PString, VStr | PInteger, VInt | PBoolean, VBool => true | _, _ => false end.
+
+(* Draft 4 validity for the keywords type / items / properties / required / anyOf *)
+Fixpoint jvalid (j : js) (v : val) {struct j} : bool :=
+  match j with
+  | JsPrim t => prim_ok t v
+  | JsNull => match v with VNull => true | _ => false end
+  | JsArr it => match v with VArr l => forallb (jvalid it) l | _ => false end
+  | JsObj props req =>
+      match v with
+      | VObj l =>
+          forallb (vhas l) req &&
+          (fix go (ps : list (str * js)) : bool :=
+             match ps with
+             | [] => true
+             | (k, pj) :: ps' => (match vget k l with Some pv => jvalid pj pv | None => true end) && go ps'
+             end) props
+      | _ => false
+      end
+  | JsAnyOf alts => (fix any (l : list js) : bool := match l with [] => false | a :: l' => jvalid a v || any l' end) alts
+  end.
+
+(* the Open API meaning: null exactly where the effective keyword is true *)
+Fixpoint oas_valid (use_x : bool) (s : oas) (v : val) {struct s} : bool :=
+  match v with
+  | VNull => wraps (eff use_x s)
+  | _ =>
+    match s with
+    | OPrim _ _ t => prim_ok t v
+    | OArr _ _ it => match v with VArr l => forallb (oas_valid use_x it) l | _ => false end
+    | OObj _ _ props req =>
+        match v with
+        | VObj l =>
+            forallb (vhas l) req &&
+            (fix go (ps : list (str * oas)) : bool :=
+               match ps with
+               | [] => true
+               | (k, p) :: ps' => (match vget k l with Some pv => oas_valid use_x p pv | None => true end) && go ps'
+               end) props
+        | _ => false
+        end
+    end
+  end.
